@@ -127,4 +127,10 @@ def ColOK (w : Nat) (raws : List (Option Nat)) (sawEqual : Bool) (bits : Bits) :
         p.2.length = d ∧ (p.1 = none ↔ p.2 = ones d) ∧
         ∀ v, p.1 = some v → ∃ lo, colMin raws = some lo ∧ lo ≤ v ∧ ofBits p.2 = v - lo)
 
+/-- what a character entry of a `k`-byte field is expected to decode to: the string truncated or
+    blank-padded to the field width, `k` bytes 0xFF for a missing entry -/
+def strCanon (k : Nat) : Option (List UInt8) → List UInt8
+  | none => List.replicate k 0xFF
+  | some b => padBytes b k
+
 end Bufr.Spec
